@@ -14,6 +14,7 @@ mod c10;
 mod c11;
 mod c12;
 mod c13;
+mod c14;
 mod c15;
 mod c17;
 mod c18;
@@ -51,6 +52,7 @@ fn main() {
         "C11" => c11::replay(&cases, &mut rep),
         "C12" => c12::replay(&cases, &mut rep),
         "C13" => c13::replay(&cases, &mut rep),
+        "C14" => c14::replay(&cases, &mut rep),
         "C15" => c15::replay(&cases, &mut rep),
         "C17" => c17::replay(&cases, &mut rep),
         "C18" => c18::replay(&cases, &mut rep),
